@@ -4,7 +4,9 @@
 import json, subprocess, sys
 pid = sys.argv[1]
 filt = sys.argv[2] if len(sys.argv) > 2 else ""
-n = pid.lower()
+import os
+ROUND = os.environ.get("SEED_ROUND", "")
+n = pid.lower() + ROUND
 subprocess.check_call(["/verif/tools/mk_worktree.sh", n])
 p = [json.loads(l) for l in open("/verif/properties.jsonl") if json.loads(l)["id"] == pid][0]
 mech = "\n".join(" - %s (%s)" % (m["name"], m["where"]) for m in p["anchors"].get("mechanism", []))
@@ -34,7 +36,8 @@ you changed). Each change must be realistic — the kind of regression a refacto
 "simplification" could introduce — and must need something SPECIFIC to manifest (a particular input value,
 operation order, boundary, configuration, or error path), not something ordinary use would expose at once.
 The two mutants should be of different kinds and touch different functions. Do not re-introduce a defect by
-simply reverting a recent commit verbatim; make a new change.
+simply reverting a recent commit verbatim; make a new change. Prefer parts of the relevant code that look
+least exercised by the existing tests, and clauses of the property other than the most obvious one.
 
 For each mutant i in {{1,2}} write into /tmp/wt_{n}/out/:
  - patch<i>.diff : `git diff` of the source change only (apply-able with `git apply` on a clean checkout of the
